@@ -270,6 +270,8 @@ class AST2SCFGTransformer:
         # (This also initializes the self.current_block attribute.)
         self.add_block(0)
         self.loop_stack: list[LoopIndices] = []
+        # Flag to detect (unsupported) nested function definitions.
+        self.in_function = False
 
     def transform_to_ASTCFG(self) -> ASTCFG:
         """Generate ASTCFG from Python function."""
@@ -497,12 +499,20 @@ class AST2SCFGTransformer:
 
     def handle_function_def(self, node: ast.FunctionDef) -> None:
         """Handle a function definition."""
+        # Only the function being transformed is supported, a function
+        # definition nested inside of it must not be inlined into its parent.
+        if self.in_function:
+            raise NotImplementedError(
+                f"Nested function definition {node.name} not implemented"
+            )
+        self.in_function = True
         # Insert implicit return None, if the function isn't terminated. May
         # end up being an unreachable block if all other paths through the
         # program already call return.
         if not isinstance(node.body[-1], ast.Return):
             node.body.append(ast.Return())
         self.codegen(node.body)
+        self.in_function = False
 
     def handle_if(self, node: ast.If) -> None:
         """Handle if statement."""
